@@ -34,7 +34,7 @@ class Job:
                  backend="sat", timeout=None, kind="bounded", bound="", tier="quick", min_loops=0,
                  clause="", functions=(), cbmc_flags=(), fallback=None, static_only=False,
                  native_srcs=None, native_libs=("-lm",), expect_fail=None, object_bits=None, no_replay=False,
-                 native_defines=None, loops=()):
+                 native_defines=None, loops=(), unwind_is_property=(), timeout_is_nontermination=False):
         self.name = name; self.harness = harness; self.entry = entry or ("h_" + name.split("@")[0])
         self.srcs = list(srcs); self.enforce = enforce; self.replace = list(replace)
         self.loop_contracts = loop_contracts; self.unwind = unwind; self.unwindset = list(unwindset)
@@ -47,6 +47,7 @@ class Job:
         self.expect_fail = expect_fail; self.object_bits = object_bits; self.no_replay = no_replay
         self.native_defines = dict(native_defines or {})
         self.loops = list(loops)
+        self.unwind_is_property = list(unwind_is_property); self.timeout_is_nontermination = timeout_is_nontermination
         if self.loops:
             self.loop_contracts = True
 
@@ -265,7 +266,12 @@ def run_job(prop, job, tier, verbose=False, loopless=False):
                         location="%s:%s" % (loc.get("file", "?"), loc.get("line", "?")),
                         function=loc.get("function", "?"),
                         inputs=trace_inputs(r.get("trace", [])), trace_tail=trace_tail(r.get("trace", [])))
-            if INFRA_RE.search(name) or "unwinding assertion" in desc or "recursion unwinding" in desc \
+            is_term = bool(job.unwind_is_property) and re.search(r"\.unwind\.\d+$", name) and any(name.startswith(f + ".") for f in job.unwind_is_property)
+            if is_term:
+                # termination jobs: a failed unwinding assertion on the designated loop IS the property (no data-independent bound)
+                item["description"] = "no iteration bound within the unwinding depth: " + desc
+                res["failed"].append(item)
+            elif INFRA_RE.search(name) or "unwinding assertion" in desc or "recursion unwinding" in desc \
                or "no body" in desc or "no-body" in name:
                 res["infra_failed"].append(item)
             else:
@@ -277,6 +283,9 @@ def run_job(prop, job, tier, verbose=False, loopless=False):
     if any(r["status"] == "ERROR" for r in results):
         res["status"] = "error"; res["failed"] = []; res["infra_failed"] = []
         res["detail"] = "solver error (out of memory?): " + " | ".join(msgs)[-300:]
+        return res
+    if not reach_ok and res["failed"] and job.unwind_is_property:
+        res["status"] = "failed"
         return res
     if not reach_ok:
         res["status"] = "vacuous"; res["detail"] = "VC_REACH witness not reachable: every path is cut before the end of the harness" + (
@@ -467,6 +476,10 @@ def native_replay(prop, job, inputs, tag):
         except subprocess.TimeoutExpired as e:
             txt = (e.stdout or b"").decode(errors="replace") + "\n[native run did not terminate within the replay time limit]"; rcode = "timeout"
             oc = "native-timeout"
+            if job.timeout_is_nontermination:
+                oc = "reproduced"
+                txt += "\n[non-termination reproduced: the real function did not return within %d s on this input]" % REPLAY_TIMEOUT
+                break
             continue
         if "VC_ASSUME_FALSE" in txt:
             oc = "inputs-violate-assumption"
@@ -560,7 +573,7 @@ def check_property(prop, tier, only=None, verbose=False):
                 if k:
                     known_hits.append((k, j, item)); continue
                 rep = None
-                if item["inputs"] and not j.static_only and not j.no_replay and not reproduced_here and replay_budget[0] > 0:
+                if (item["inputs"] or j.timeout_is_nontermination) and not j.static_only and not j.no_replay and not reproduced_here and replay_budget[0] > 0:
                     replay_budget[0] -= 1
                     try:
                         rep = native_replay(prop, j, item["inputs"], "f%d" % n)
